@@ -367,7 +367,7 @@ pub fn allow_check<'a>(ctx: &mut Ctx, w: &'a World, nonce_s: &Scalar, amount: i6
         if expect == Some(true) {
             ctx.violation(
                 &format!("allow_payment returned None on {} (without even deriving a challenge), expected Some", what),
-                json!({"class": what, "nonce": hex_s(nonce_s), "amount": amount, "context": hex::encode(ctx_bytes), "proof_bytes": hex::encode(d.bytes(&book))}),
+                json!({"class": what, "nonce": hex_s(nonce_s), "amount": amount, "context": crate::abacus::ctx_hex(ctx_bytes), "proof_bytes": hex::encode(d.bytes(&book))}),
             );
         }
         return None;
@@ -389,14 +389,14 @@ pub fn allow_check<'a>(ctx: &mut Ctx, w: &'a World, nonce_s: &Scalar, amount: i6
     let (agree, mtoks) = ctx.expect_toks(&op, &reals);
     if !agree && out.is_some() && matches!(mtoks.first(), Some(Tok::V(v)) if v == "none") {
         ctx.violation(&format!("allow_payment accepts a pay proof ({}) that the model's acceptance predicate rejects", what),
-            json!({"class": format!("accepted-although-the-model-rejects:{}", what), "nonce": hex_s(nonce_s), "amount": amount, "context": hex::encode(ctx_bytes), "proof_bytes": hex::encode(d.bytes(&book))}));
+            json!({"class": format!("accepted-although-the-model-rejects:{}", what), "nonce": hex_s(nonce_s), "amount": amount, "context": crate::abacus::ctx_hex(ctx_bytes), "proof_bytes": hex::encode(d.bytes(&book))}));
     }
     ctx.count(&format!("allow:{}:{}", what, out.is_some()));
     if let Some(e) = expect {
         if out.is_some() != e {
             ctx.violation(
                 &format!("allow_payment returned {} on {}, expected {}", if out.is_some() { "Some" } else { "None" }, what, if e { "Some" } else { "None" }),
-                json!({"class": what, "nonce": hex_s(nonce_s), "amount": amount, "context": hex::encode(ctx_bytes), "proof_bytes": hex::encode(d.bytes(&book))}),
+                json!({"class": what, "nonce": hex_s(nonce_s), "amount": amount, "context": crate::abacus::ctx_hex(ctx_bytes), "proof_bytes": hex::encode(d.bytes(&book))}),
             );
         }
     }
